@@ -11,8 +11,9 @@ Proved here: the leaf validators generated code calls (`validate.Int`, `validate
 including `minInt64`, arrays of any length), and the required-field bit mask of generated struct decoders
 reports a failure exactly when a required field is missing, for any number of fields.
 Proved too, end to end on the model `JCodec` of what the templates render for the fragment *objects with named
-properties (required or optional, nullable or not), arrays with possibly nullable items and item counts,
-integers with bounds / exclusive flags / multipleOf, strings with lengths in code points, booleans*: the
+properties (required or optional, nullable or not; open or closed by `additionalProperties: false`), arrays with
+possibly nullable items and item counts, integers (integer literals within 64 bits — a literal with a fraction or
+exponent part is no integer) with bounds / exclusive flags / multipleOf, strings with lengths in code points, booleans*: the
 server's verdict — decode the body, then `Validate()` — is validity against the schema, for every schema of
 the fragment and every document with unique member names (`server_accepts_iff_valid`); `Validate()` on the
 decoded value is exactly the keywords on the document (`validate_is_keywords`). The model is tied on every
